@@ -2,7 +2,7 @@
     function the correspondence evaluates) and the non-vacuity examples. *)
 From Coq Require Import List NArith Bool Arith Lia Permutation SetoidList Relations.
 From SK Require Import lib.LGraph lib.Mono lib.Reach lib.C01_GraphLemmas model.C06_Model lib.C06_Spec
-  proof.C06_All proof.C06_Comp proof.C06_Comps proof.C06_CompSem proof.C06_CompNoDup proof.C06_Prefilter.
+  proof.C06_All proof.C06_Comp proof.C06_Comps proof.C06_CompSem proof.C06_CompNoDup proof.C06_Prefilter proof.C06_Table.
 Import ListNotations.
 
 Lemma oracle_ok_meaning (enum : list N -> list N -> list mapping) (H P : graph) :
@@ -166,6 +166,18 @@ Proof.
   apply wf_intro; [apply Hg|apply Hg|apply simpleb_spec; exact E2].
 Qed.
 
+(** the two flags of an order-sensitive case imply every premise of the theorems for the
+    oracle that [run_list] uses *)
+Theorem run_list_premises (H P : graph) (t : table) :
+  wfb H && wfb P = true -> table_ok2 H P t = true ->
+  gwf H /\ gwf P /\ LGraph.wf P /\ oracle_ok (lookup_or t H P) H P.
+Proof.
+  intros Ew Et. apply andb_prop in Ew. destruct Ew as [EH EP].
+  destruct (wfb_spec H EH) as [_ HgH]. destruct (wfb_spec P EP) as [HwP HgP].
+  split; [exact HgH|]. split; [exact HgP|]. split; [exact HwP|].
+  exact (table_ok2_oracle_ok H P HgH HgP t Et).
+Qed.
+
 (** ---------- non-vacuity examples ---------- *)
 (** host  C1-C2-C3 . C4-O5   pattern  C10 . O11  (element codes 1 = C, 2 = O; bond code 1) *)
 Definition cC : nlab := ([1%N], 0%N).
@@ -279,6 +291,25 @@ Proof.
   assert (Hm : gwf Mix) by (apply gwfb_spec; vm_compute; reflexivity).
   apply monos_on_contract; [exact Hw|apply Hm|apply Hw].
 Qed.
+
+(** a recorded table in an order different from the verified enumerator's (as networkx
+    produces) passes the monitor, is used by the run, and the theorems apply to it *)
+Definition ex_table : table :=
+  [([1; 2; 3; 4; 5], [10; 11], [[(10, 4); (11, 5)]; [(10, 3); (11, 5)]; [(10, 1); (11, 5)]; [(10, 2); (11, 5)]]);
+   ([4; 5], [11], [[(11, 5)]])]%N.
+Example ex_table_ok :
+  table_ok2 Hx Px ex_table = true /\
+  find (lookup_or ex_table Hx Px) (Cfg 0 3 5000 true false) Hx Px = [[(10, 4); (11, 5)]; [(10, 3); (11, 5)]; [(10, 1); (11, 5)]]%N /\
+  length (find (lookup_or ex_table Hx Px) (Cfg 1 0 5000 true false) Hx Px) = 3 /\
+  oracle_ok (lookup_or ex_table Hx Px) Hx Px.
+Proof.
+  split; [vm_compute; reflexivity|]. split; [vm_compute; reflexivity|]. split; [vm_compute; reflexivity|].
+  apply run_list_premises; vm_compute; reflexivity.
+Qed.
+(** a table with a wrong entry (one match missing) is rejected by the monitor *)
+Example ex_table_bad :
+  table_ok2 Hx Px [([1; 2; 3; 4; 5], [10; 11], [[(10, 4); (11, 5)]; [(10, 3); (11, 5)]; [(10, 1); (11, 5)]])]%N = false.
+Proof. vm_compute. reflexivity. Qed.
 
 (** limits: truncation, emptying, and the per-component enumeration guard *)
 Example ex_limits :
